@@ -209,6 +209,9 @@ inductive Op where
   | poll (p : Pid) (gone : List Hid)
   /-- one `_move_results`: the rows of node file `b` move to the consolidated file -/
   | collectFile (p : Pid) (b : Bid)
+  /-- a collector that dies or fails between the copy and the removal inside `_move_results`: the rows
+      are in the consolidated file AND still in the node file -/
+  | collectCopy (p : Pid) (b : Bid)
   /-- end of one pass of `_update_completed_jobs`; `ks` = the jobs it cancels -/
   | passEnd (p : Pid) (ks : List JobId)
   /-- `_cancel_job`'s row is appended to the consolidated file -/
@@ -308,6 +311,13 @@ def step (s : Sys) : Op → Option Sys
         some (setSub { s with processed := s.processed ++ s.nodeFile b,
                               nodeFile := fun c => if c = b then [] else s.nodeFile c } p
           { x with pc := .collecting, pass := x.pass ++ s.nodeFile b })
+      else none
+    | none => none
+  | .collectCopy p b =>
+    match getSub s p with
+    | some x =>
+      if (x.pc = .collecting ∨ (x.pc = .loaded ∧ x.out = [])) ∧ !x.isCancel then
+        some (setSub { s with processed := s.processed ++ s.nodeFile b } p { x with pc := .failing })
       else none
     | none => none
   | .passEnd p ks =>
